@@ -383,6 +383,15 @@ func checkPut(c *Case) (res kit.Result) {
 		res.Failf("%s panicked after changing the buffer's shape to %+v (was %+v)", what, bad.Hdr(), bh)
 		return
 	}
+	// offered again (a caller that recovered and retries): every rejected Put panics, and still nothing changes
+	if again, _ := kit.Try(func() { pool.Put(bad) }); !again {
+		res.Failf("%s panicked the first time, but the same Put repeated did not panic", what)
+		return
+	}
+	if d := kit.DiffVals("rejected buffer after the second rejected Put", full.Snap(), before); d != "" || bad.Hdr() != bh {
+		res.Failf("%s: the second rejected Put modified the buffer: %s %+v", what, d, bad.Hdr())
+		return
+	}
 	// the pool must not have swallowed it: the next buffers are of the allocator's shape and zeroed
 	want := kit.Hdr{Len: C * L, Cap: C * K, Length: L, Capacity: K, Channels: C, BitDepth: kit.Info(c.S).Bits}
 	for g := 0; g < 3; g++ {
